@@ -73,17 +73,27 @@ func TestC31(t *testing.T) {
 		"executed on the real in-memory revocation cache under a virtual clock; every return value compared with a map model. "+
 		"Non-trivial: history in which an older or expired revocation was refused, or a newer one replaced a live one, and the clock advanced past an expiry.")
 	defer rec.Flush(t)
-	rec.Assume("virtual clock via testing/synctest; revocation instants on whole seconds, clock at +0.5 s (equality instants not asserted)")
-	rec.Require("insert_accepted", "insert_refused_older", "insert_refused_expired", "insert_replaces_live", "insert_after_expiry_of_newer", "get_live", "get_expired", "clean_removed")
+	rec.Assume("virtual clock via testing/synctest; revocation instants on whole seconds, clock at +0.5 s or, in half of the histories, on whole seconds (at the very instant of an expiry either reading of \"unexpired\" is taken; strictly before and after it is asserted)")
+	rec.Require("insert_accepted", "insert_refused_older", "insert_refused_expired", "insert_replaces_live", "insert_after_expiry_of_newer", "get_live", "get_expired", "clean_removed", "on_expiry_instant")
 	rapid.Check(t, func(rt *rapid.T) {
 		ops := genRevOps(rt)
+		// Half of the histories run half a second off the whole seconds on which revocations are issued and
+		// expire; the others run exactly on them, so that operations fall on the very instant of an expiry.
+		// Whether a revocation counts as expired at that one instant is not asserted (either answer is
+		// taken); everything strictly before and after it is.
+		onSecond := rapid.Bool().Draw(rt, "clockOnWholeSeconds")
 		var fail string
 		labels := map[string]int{}
 		synctest.Test(t, func(t *testing.T) {
-			time.Sleep(500 * time.Millisecond)
+			if !onSecond {
+				time.Sleep(500 * time.Millisecond)
+			}
 			c := memrevcache.New()
 			ctx := context.Background()
-			type entry struct{ ts, exp time.Time }
+			type entry struct {
+				ts, exp   time.Time
+				maybeGone bool // expired; a clean-up at the instant of its expiry may or may not have removed it
+			}
 			model := map[int]*entry{} // what the cache still holds (possibly expired, until cleaned or replaced)
 			for i, op := range ops {
 				now := time.Now()
@@ -101,6 +111,19 @@ func TestC31(t *testing.T) {
 					m := model[op.Key]
 					live := m != nil && m.exp.After(now)
 					want := exp.After(now) && (!live || ts.After(m.ts))
+					if exp.Equal(now) || (m != nil && m.exp.Equal(now)) {
+						// on the instant of an expiry: accepted under one reading of "unexpired" at that instant?
+						alt := false
+						for _, newLive := range []bool{exp.After(now), !exp.Before(now)} {
+							for _, oldLive := range []bool{live, m != nil && !m.exp.Before(now)} {
+								alt = alt || (ok == (newLive && (!oldLive || ts.After(m.ts))))
+							}
+						}
+						if alt {
+							labels["on_expiry_instant"]++
+							want = ok
+						}
+					}
 					if ok != want {
 						fail = fmt.Sprintf("step %d: insert(key %d, ts=%s, ttl=%ds) at %s accepted=%v, model says %v (stored: %+v)", i, op.Key, ts.Format("15:04:05"), op.TTL, now.Format("15:04:05.0"), ok, want, m)
 						return
@@ -128,6 +151,10 @@ func TestC31(t *testing.T) {
 					}
 					m := model[op.Key]
 					live := m != nil && m.exp.After(now)
+					if m != nil && m.exp.Equal(now) {
+						live = got != nil
+						labels["on_expiry_instant"]++
+					}
 					if (got != nil) != live {
 						fail = fmt.Sprintf("step %d: get(key %d) at %s returned %v, model live=%v (stored %+v)", i, op.Key, now.Format("15:04:05.0"), got, live, m)
 						return
@@ -157,10 +184,15 @@ func TestC31(t *testing.T) {
 						}
 						got = append(got, fmt.Sprintf("%s#%d@%d", r.Rev.IA(), r.Rev.IfID, r.Rev.RawTimestamp))
 					}
+					returned := map[string]bool{}
+					for _, g := range got {
+						returned[g] = true
+					}
 					var want []string
 					for k, m := range model {
-						if m.exp.After(now) {
-							want = append(want, fmt.Sprintf("%s#%d@%d", revKeys[k].ia, revKeys[k].id, m.ts.Unix()))
+						id := fmt.Sprintf("%s#%d@%d", revKeys[k].ia, revKeys[k].id, m.ts.Unix())
+						if m.exp.After(now) || (m.exp.Equal(now) && returned[id]) {
+							want = append(want, id)
 						}
 					}
 					sort.Strings(got)
@@ -176,15 +208,23 @@ func TestC31(t *testing.T) {
 						fail = fmt.Sprintf("step %d: deleteExpired error %v", i, err)
 						return
 					}
-					want := int64(0)
+					want, optional := int64(0), int64(0)
 					for k, m := range model {
-						if !m.exp.After(now) {
+						switch {
+						case m.exp.Equal(now):
+							optional++
+							m.maybeGone = true
+							labels["on_expiry_instant"]++
+						case m.exp.Before(now) && m.maybeGone:
+							optional++
+							delete(model, k)
+						case m.exp.Before(now):
 							want++
 							delete(model, k)
 						}
 					}
-					if cnt != want {
-						fail = fmt.Sprintf("step %d: deleteExpired removed %d, model has %d expired entries", i, cnt, want)
+					if cnt < want || cnt > want+optional {
+						fail = fmt.Sprintf("step %d: deleteExpired removed %d, model has %d expired entries (and %d on the instant of their expiry)", i, cnt, want, optional)
 						return
 					}
 					if want > 0 {
